@@ -71,6 +71,7 @@ func (e2Engine) Gen(prop string, seed int64, tier string) *Plan {
 		}
 		p.Steps = append(p.Steps, Step{K: "settle"})
 		p.Cfg["template"] = 1
+		insertCrashMidPush(p, seed)
 		return p
 	}
 	n := 6 + r.IntN(30)
@@ -106,7 +107,27 @@ func (e2Engine) Gen(prop string, seed int64, tier string) *Plan {
 		}
 	}
 	p.Steps = append(p.Steps, Step{K: "settle"})
+	insertCrashMidPush(p, seed)
 	return p
+}
+
+// insertCrashMidPush adds "B crashes while it handles a push" steps after some writes (own stream of choices).
+func insertCrashMidPush(p *Plan, seed int64) {
+	if p.Cfg["mode"] == 1 {
+		return
+	}
+	rc := newRng(seed, 151)
+	if !chance(rc, 35) {
+		return
+	}
+	var steps []Step
+	for _, st := range p.Steps {
+		steps = append(steps, st)
+		if st.K == "write" && chance(rc, 40) {
+			steps = append(steps, Step{K: "net", A: 5, B: rc.IntN(8), C: rc.IntN(6)})
+		}
+	}
+	p.Steps = steps
 }
 
 func (e2Engine) Run(p *Plan) *Result {
@@ -342,6 +363,34 @@ func (r *c15Run) exec(i int, s Step, maxInterval time.Duration) {
 			// reorder: deliver the last one first
 			r.net.deliver(pend[len(pend)-1], true)
 			r.shape = append(r.shape, "deliver-last")
+		case 5:
+			// B crashes while it handles a push: only the first few of the storage commits the handling makes
+			// become durable (the push may or may not have been acknowledged by then); B comes back at once
+			if r.bDead || r.p.cfg("mode", 0) == 1 {
+				return
+			}
+			pr := pend[mod(s.B, len(pend))]
+			if pr.to != r.b.PID {
+				return
+			}
+			k0 := r.b.Store.DurableLen()
+			r.b.Store.FenceAfterCommits(1 + mod(s.C, 6))
+			r.net.deliver(pr, true)
+			synctest.Wait()
+			rowsB, _ := r.dump(r.b, r.patched)
+			res.logf("crash-mid-push: durable batches %d -> %d (fence after %d), B shows %d documents before it dies", k0, r.b.Store.DurableLen(), 1+mod(s.C, 6), len(rowsB))
+			r.net.mu.Lock()
+			r.net.down[r.b.PID] = true
+			r.net.mu.Unlock()
+			r.b.crash()
+			r.net.mu.Lock()
+			delete(r.net.nodes, r.b.PID)
+			r.net.mu.Unlock()
+			r.bDead = true
+			res.Stats["b_crashed_while_handling_a_push"]++
+			r.lastFaultAt = time.Now()
+			r.shape = append(r.shape, "crash-mid-push")
+			r.recoverB()
 		}
 	case "down":
 		if r.bDead {
@@ -616,6 +665,9 @@ func (r *c15Run) settle(i int, maxInterval time.Duration) {
 		}
 		if r.res.Stats["b_crashed"] > 0 {
 			cls += "/b-crashed"
+		}
+		if r.res.Stats["b_crashed_while_handling_a_push"] > 0 {
+			cls += "/b-crashed-mid-push"
 		}
 		var diffs []string
 		for id, row := range da {
